@@ -95,8 +95,16 @@ def r2(c):
     def from_read(r, allow_cast=True):
         def p(o):
             s = q.sem(b, o)
-            if s.kind == 'cast' and allow_cast:
-                s = s.extra[0]
+            guard = 0
+            while allow_cast and guard < 3:
+                guard += 1
+                if s.kind == 'cast':                  # `x as usize`
+                    s = s.extra[0]
+                elif s.kind == 'call' and s.cs.declared in ('core::convert::From::from', 'core::convert::Into::into') and len(s.cs.args) == 1 and \
+                        not s.proj and 'usize' in (s.cs.resolved or '') + (s.cs.gargs or ''):      # `usize::from(x)`
+                    s = q.sem(b, s.cs.args[0])
+                else:
+                    break
             return s.kind == 'call' and s.cs is r
         return p
     cs_sub = [cs for cs in b.calls() if cs.callee.endswith('::checked_sub')]
